@@ -2,6 +2,7 @@ package schema
 
 import (
 	"fmt"
+	"reflect"
 	"regexp"
 )
 
@@ -1347,6 +1348,9 @@ func UnserializeScope(data any) (*ScopeSchema, error) {
 	}); err != nil {
 		return nil, fmt.Errorf("invalid scope (%w)", err)
 	}
+	if err := validateUnserialized(reflect.ValueOf(result), map[uintptr]struct{}{}); err != nil {
+		return nil, fmt.Errorf("invalid scope (%w)", err)
+	}
 	return result, nil
 }
 
@@ -1373,6 +1377,69 @@ func UnserializeSchema(data any) (*SchemaSchema, error) {
 		return nil, err
 	}
 	result := s.(*SchemaSchema)
-	result.applyNamespace()
+	// Linking reports problems such as dangling references by panicking. In a schema received from a plugin they
+	// are bad input, not programming errors.
+	if err := recoverToError(result.applyNamespace); err != nil {
+		return nil, fmt.Errorf("invalid schema (%w)", err)
+	}
+	if err := validateUnserialized(reflect.ValueOf(result), map[uintptr]struct{}{}); err != nil {
+		return nil, fmt.Errorf("invalid schema (%w)", err)
+	}
 	return result, nil
+}
+
+// validateUnserialized walks a schema that was built from data and checks what would otherwise only surface as
+// a panic on first use: every scope, nested ones included, must have its root object, and every default value
+// must be parsable.
+func validateUnserialized(v reflect.Value, visited map[uintptr]struct{}) error {
+	switch v.Kind() {
+	case reflect.Interface:
+		if v.IsNil() {
+			return nil
+		}
+		return validateUnserialized(v.Elem(), visited)
+	case reflect.Pointer:
+		if v.IsNil() || !v.CanInterface() {
+			return nil
+		}
+		if _, ok := visited[v.Pointer()]; ok {
+			return nil
+		}
+		visited[v.Pointer()] = struct{}{}
+		switch s := v.Interface().(type) {
+		case *ScopeSchema:
+			if err := recoverToError(func() { s.RootObject() }); err != nil {
+				return err
+			}
+		case *ObjectSchema:
+			if err := recoverToError(func() { s.GetDefaults() }); err != nil {
+				return err
+			}
+		case *regexp.Regexp, *UnitsDefinition, *DisplayValue:
+			return nil
+		}
+		return validateUnserialized(v.Elem(), visited)
+	case reflect.Struct:
+		for i := 0; i < v.NumField(); i++ {
+			if v.Type().Field(i).IsExported() {
+				if err := validateUnserialized(v.Field(i), visited); err != nil {
+					return err
+				}
+			}
+		}
+	case reflect.Map:
+		iter := v.MapRange()
+		for iter.Next() {
+			if err := validateUnserialized(iter.Value(), visited); err != nil {
+				return err
+			}
+		}
+	case reflect.Slice:
+		for i := 0; i < v.Len(); i++ {
+			if err := validateUnserialized(v.Index(i), visited); err != nil {
+				return err
+			}
+		}
+	}
+	return nil
 }
